@@ -12,7 +12,9 @@
   * `ill=`      indices of the elements whose path goes through a cdf value clipped at a *tiny* threshold (`1e-10`):
                 the float code evaluates `ppf` there with a cancellation error of relative size ~1e-6 (`1 − |2p − 1|`
                 at `p = 1e-10` or `1 − 1e-10`), so the harness compares these elements with a relative tolerance.
-  * `undef`     the guard predicate of the definition fails (the Python code divides by zero / produces NaN)
+  * `undef`     the guard predicate of the definition fails on a quantity that the float code computes exactly as
+                well (mean of dyadic inputs = 0, fitted scale = 0): the Python code divides by zero / produces NaN
+  * `undef-soft` a *computed* denominator (`ppf_H(τ)`) is exactly zero: the float code may see a tiny non-zero number
 -/
 import IbicusModel.Model.Proto
 import IbicusModel.Model.Debiasers
@@ -21,6 +23,7 @@ open Proto Model.Stats Model.Family Model.Debiasers
 
 def rats? := parseList? parseRat?
 def ints? := parseList? parseInt?
+def nats? (s : String) : Option (List Nat) := parseList? (fun t => t.toNat?) s
 
 def ecdfM? : String → Option EcdfMethod
   | "step_function" => some .step
@@ -113,6 +116,18 @@ def iecdfEvent (m : IecdfMethod) (n : Nat) (q : Rat) : Bool :=
     | .closest_observation => isInt ((n : Rat) * q - 3 / 2)
     | _ => false
 
+/-- the same for a probability that the float code computes from *rounded* knots (histogram edges of a shifted
+    sample): the index only has to be within `1e-7` of an integer -/
+def nearInt (q : Rat) : Bool := decide (Py.absQ (q - ((q + 1 / 2).floor : Rat)) < 1 / 10000000)
+
+def iecdfEventNear (m : IecdfMethod) (n : Nat) (q : Rat) : Bool :=
+  if q = 0 ∨ q = 1 then false
+  else match m with
+    | .inverted_cdf => nearInt (((n : Rat) - 1) * q)
+    | .averaged_inverted_cdf => nearInt ((n : Rat) * q - 1)
+    | .closest_observation => nearInt ((n : Rat) * q - 3 / 2)
+    | _ => false
+
 def orL (a b : List Bool) : List Bool := List.zipWith (fun x y => x || y) a b
 
 /-- a raw cdf value that `threshold_cdf_vals` moves, for a tiny threshold -/
@@ -195,6 +210,13 @@ def sdmRelFlags (thr : Rat) (obs H F : List Rat) : List Bool :=
   let half := decide (a - (a.floor : Rat) = 1 / 2)
   F.map (fun x => half || (decide (x ≥ thr) && dup F x))
 
+/-- `iecdf` methods that return an element of the sample unchanged (no arithmetic on the values) -/
+def iecdfSelects (m : IecdfMethod) : Bool :=
+  match m with
+  | .inverted_cdf => true
+  | .closest_observation => true
+  | _ => false
+
 def cdftFlags (ssr : Bool) (d : DeltaShift) (em : EcdfMethod) (im : IecdfMethod) (obs H F u : List Rat) :
     List Bool :=
   let b := if ssr then ssrBefore obs H F u else (obs, H, F, 0)
@@ -208,8 +230,11 @@ def cdftFlags (ssr : Bool) (d : DeltaShift) (em : EcdfMethod) (im : IecdfMethod)
     let y := iecdf1 im obs' p1
     let p2 := ecdf1 em H' y
     let o := iecdf1 im F' p2
-    ecdfSelfEvent em F' x || iecdfEvent im obs'.length p1 || ecdfEvent em H' y || iecdfEvent im F'.length p2
-      || (ssr && decide (o = thr)))
+    -- without a shift and with a selecting iecdf, `y` / `o` are input values: comparisons with them are exact
+    -- in the float code as well (no flag, so that `<` / `≤` slips at knots and at the SSR threshold stay visible)
+    let exact := d == .no_shift && iecdfSelects im
+    ecdfSelfEvent em F' x || iecdfEvent im obs'.length p1 || (ecdfEvent em H' y && !(exact && em == .step))
+      || iecdfEvent im F'.length p2 || (ssr && decide (o = thr) && !exact))
 
 /-- year-window ops: flags travel through the same skeleton as 0/1 values -/
 def boolsToRat (l : List Bool) : List Rat := l.map (fun b => if b then 1 else 0)
@@ -274,7 +299,7 @@ def step (line : String) : String :=
       match tp? tp, ecdfM? em, parseRat? t, censor? c, rats? o, rats? h, rats? f with
       | some tp, some em, some t, some c, some o, some h, some f =>
         if ¬ qdmGuard o h f then "undef"
-        else if tp = .relative ∧ ¬ qdmRelGuard rs (ecdf1 em) t f (rs.fit h) then "undef"
+        else if tp = .relative ∧ ¬ qdmRelGuard rs (ecdf1 em) t f (rs.fit h) then "undef-soft"
         else outFI (qdmWindow rs tp em t c o h f) (qdmFlags tp em t c f (rs.fit o) (rs.fit h)) (qdmIll em t f)
       | _, _, _, _, _, _, _ => "bad-op"
   | ["qdmyears", tp, em, t, c, L, S, ys, o, h, f] =>
@@ -287,12 +312,40 @@ def step (line : String) : String :=
           let guardFn : Model.Skeleton.YearFn Rat := fun Fw _ =>
             .ok (Fw.map (fun _ => if tp = .relative ∧ ¬ qdmRelGuard rs (ecdf1 em) t Fw (rs.fit h) then 1 else 0))
           match Model.Skeleton.applyYears guardFn L S ys f with
-          | .ok gl => if gl.contains (some 1) then "undef"
+          | .ok gl => if gl.contains (some 1) then "undef-soft"
               else outYears (qdmWindowYears rs tp em t c L S ys o h f)
                 (if ys.length ≠ f.length then .error "ValueError" else Model.Skeleton.applyYears g L S ys f)
                 (Model.Skeleton.applyYears (fun Fw _ => .ok (boolsToRat (qdmIll em t Fw))) L S ys f)
           | .error e => "error " ++ e
       | _, _, _, _, _, _, _, _, _, _ => "bad-op"
+  | ["qdmhist", tp, t, c, e, cnt, o, h, f] =>
+      -- ecdf_method = "kernel_density": the histogram of cm_future (np.histogram(bins="auto")) is an oracle argument
+      match tp? tp, parseRat? t, censor? c, rats? e, nats? cnt, rats? o, rats? h, rats? f with
+      | some tp, some t, some c, some e, some cnt, some o, some h, some f =>
+        let E : List Rat → Rat → Rat := fun _ y => ecdfHist1 e cnt y
+        if ¬ qdmGuard o h f then "undef"
+        else if tp = .relative ∧ ¬ qdmRelGuard rs E t f (rs.fit h) then "undef-soft"
+        else
+          let v := qdmStepsG rs tp E t c f (rs.fit o) (rs.fit h)
+          let fl := f.map (fun x => match c with
+            | none => false
+            | some thr => decide (qdmCore rs tp (rs.fit o) (rs.fit h) x (thresholdCdf t (E f x)) = thr))
+          outFI v fl (f.map (fun x => clipTiny t (E f x)))
+      | _, _, _, _, _, _, _, _ => "bad-op"
+  | ["cdfthist", d, im, eF, cF, eH, cH, o, h, f] =>
+      match shift? d, iecdfM? im, rats? eF, nats? cF, rats? eH, nats? cH, rats? o, rats? h, rats? f with
+      | some d, some im, some eF, some cF, some eH, some cH, some o, some h, some f =>
+        if ¬ cdftGuard d o h f then "undef"
+        else
+          let HF := cdftShifted d o h f
+          let E : List Rat → Rat → Rat := fun s y => if s = HF.1 then ecdfHist1 eH cH y else ecdfHist1 eF cF y
+          let v := cdftMappingG E (iecdf1 im) d o h f
+          let fl := HF.2.map (fun x =>
+            let p1 := E HF.2 x
+            let y := iecdf1 im o p1
+            iecdfEventNear im o.length p1 || iecdfEventNear im HF.2.length (E HF.1 y))
+          outF v fl
+      | _, _, _, _, _, _, _, _, _ => "bad-op"
   | ["sdmabs", o, h, f] => match rats? o, rats? h, rats? f with
       | some o, some h, some f =>
         if sdmAbsGuard ratSigmoid o h f then outFI (sdmAbsolute ratSigmoid o h f) (sdmAbsFlags o h f) (sdmAbsIll o h f)
@@ -303,9 +356,9 @@ def step (line : String) : String :=
         match sdmRelative rs thr t o h f with
         | .error e => "error " ++ e
         | .ok v =>
-          if scalesOk ratSigmoid [rainy thr (sortQ o), rainy thr (sortQ h), rainy thr (sortQ f)]
-              ∧ sdmRelDivGuard rs thr t h f then outFI v (sdmRelFlags thr o h f) (sdmRelIll thr t o h f)
-          else "undef"
+          if ¬ scalesOk ratSigmoid [rainy thr (sortQ o), rainy thr (sortQ h), rainy thr (sortQ f)] then "undef"
+          else if ¬ sdmRelDivGuard rs thr t h f then "undef-soft"
+          else outFI v (sdmRelFlags thr o h f) (sdmRelIll thr t o h f)
       | _, _, _, _, _ => "bad-op"
   | ["cdft", d, em, im, ssr, o, h, f, u] =>
       match shift? d, ecdfM? em, iecdfM? im, bool? ssr, rats? o, rats? h, rats? f, rats? u with
